@@ -3,6 +3,7 @@ package c17
 
 import (
 	"encoding/json"
+	"strings"
 	"testing"
 
 	pipeline "github.com/buildkite/go-pipeline"
@@ -124,6 +125,22 @@ func TestPropCanonicalSource(t *testing.T) {
 			cfg = map[string]any{"nested": map[string]any{"deep": []any{map[string]any{"k": nil}}}}
 		}
 		checkSource(t, s, cfg)
+		// what a source canonicalises to does not depend on the sources seen before it: a sibling that
+		// shares a long beginning with this one (same plugin, the next version) goes through right after.
+		// The names are stretched so that beginnings of every length up to ~150 bytes are shared.
+		if (s.Class == "name" || s.Class == "org/name") && strings.Contains(s.Text, "#") && rapid.IntRange(0, 2).Draw(t, "sibling") == 0 {
+			pad := strings.Repeat("n", rapid.IntRange(0, 150).Draw(t, "pad"))
+			at := strings.Index(s.Text, "#")
+			cat := strings.Index(s.Canon, "-buildkite-plugin#")
+			if at > 0 && cat > 0 {
+				first := plug.Src{Text: s.Text[:at] + pad + s.Text[at:], Canon: s.Canon[:cat] + pad + s.Canon[cat:], Class: s.Class}
+				second := plug.Src{Text: first.Text + "9", Canon: first.Canon + "9", Class: s.Class}
+				checkSource(t, first, cfg)
+				checkSource(t, second, cfg)
+				checkSource(t, first, cfg)
+				rec.Class("sibling-sharing-a-long-beginning")
+			}
+		}
 		rec.Case(ev.HashStr(s.Text), s.Tricky, "class="+s.Class)
 		rec.MaybeSample(s.Tricky, func() any { return s })
 	})
